@@ -535,6 +535,7 @@ type genCase struct {
 	Text   string `json:"text"`
 	S      int    `json:"s"`
 	LA     int    `json:"lookaheads"`
+	Slack  int    `json:"slack,omitempty"`
 }
 
 func buildRef(res genharness.Result) (*reference, error) {
@@ -652,7 +653,7 @@ func layerB(c *core.Ctx, st *stats) {
 				continue
 			}
 			ref := refs[sr.p.Name+"/"+sr.in.Name]
-			maxAfter := judgeGenRecords(c, st, sr.p, sr.in, ref, res.Extra["records"].([]any))
+			maxAfter := judgeGenRecords(c, st, sr.p, sr.in, ref, res.Extra["records"].([]any), 0)
 			c.Set("gen_"+sr.p.Name+"_"+sr.in.Name+"_max_tokens_after_cancel", maxAfter)
 			// sensitivity of the bound: the stop distance must actually reach (almost) the bound,
 			// otherwise the inputs are too short to see a late stop
@@ -665,9 +666,14 @@ func layerB(c *core.Ctx, st *stats) {
 
 // judgeGenRecords judges the records of one sweep of a generated parser; returns the largest
 // number of tokens delivered after a cancellation.
-func judgeGenRecords(c *core.Ctx, st *stats, p genParser, in genInput, ref *reference, recs []any) (maxAfter int) {
-	gc := genCase{Parser: p.Name, TM: p.TM, Input: in.Name, Text: in.Text, LA: p.Lookaheads}
-	bound := pollEvery + 1 + p.Lookaheads
+//
+// slack: tokens that are delivered but never shifted. Error recovery discards input tokens
+// (skipBrokenCode); the statement bounds SHIFTED tokens, so for malformed inputs the bound on
+// delivered tokens is widened by the number of error-handler calls of the uncancelled run times
+// the largest number of tokens one recovery of these inputs discards (1).
+func judgeGenRecords(c *core.Ctx, st *stats, p genParser, in genInput, ref *reference, recs []any, slack int) (maxAfter int) {
+	gc := genCase{Parser: p.Name, TM: p.TM, Input: in.Name, Text: in.Text, LA: p.Lookaheads, Slack: slack}
+	bound := pollEvery + 1 + p.Lookaheads + slack
 	for _, rs := range recs {
 		r, err := parseRecord(rs.(string))
 		if err != nil {
@@ -833,16 +839,18 @@ func layerB2(c *core.Ctx, st *stats) {
 				c.Violate("layerB:reference-run:"+p.Name, err.Error(), gc)
 				continue
 			}
+			slack := 0
 			for _, e := range res.Events {
 				if e.Type == "!error" {
 					handlerCalls++
+					slack++
 				}
 			}
 			if i >= 2 && ref.rec.ErrKind != "nil" {
 				c.Violate("layerB:reference-run-rejected:"+p.Name, "the uncancelled parse of a valid input fails: "+ref.rec.ErrKind, gc)
 				continue
 			}
-			if m := judgeGenRecords(c, st, p, in, ref, res.Extra["records"].([]any)); m > maxAll {
+			if m := judgeGenRecords(c, st, p, in, ref, res.Extra["records"].([]any), slack); m > maxAll {
 				maxAll = m
 			}
 		}
@@ -1285,7 +1293,7 @@ func replay(c *core.Ctx, raw json.RawMessage) error {
 	if err != nil {
 		return err
 	}
-	fs, _ := judge(ref, r, pollEvery+1+k.LA, func(r record) int { return r.Delivered - r.AtCancel })
+	fs, _ := judge(ref, r, pollEvery+1+k.LA+k.Slack, func(r record) int { return r.Delivered - r.AtCancel })
 	if len(fs) > 0 {
 		return fmt.Errorf("%s: %s", fs[0].key, fs[0].what)
 	}
